@@ -4,7 +4,7 @@
      @rinit_mt s | @rinit_default s | @rinit_lc s a c m2exp | @rinit_lcsize s size | @rseed s z | @rseed_ui s u
      @rcopy dst src | @rclear s | @urandomb s n | @urandomm s n | @urandomm_alias s n | @urandomb_ui s n
      @urandomm_ui s n | @rrandomb s n | @mpn_urandomb s n | @mpn_urandomm s [limbs] | @mpn_randomb s n
-     @mpn_rrandom s n | @mpf_urandomb s prec nbits | @freq s nbits draws
+     @mpn_rrandom s n | @mpf_urandomb s prec nbits | @freq s nbits draws | @same s t n
      lc_m2exp1_probe nbits     (stateless; runs the m2exp = 1 generator in a child with a 2 s alarm) */
 #include "harness.h"
 #include "gmp-impl.h"
@@ -115,6 +115,15 @@ static int op_mpf_urandomb(int argc, tok_t *a, out_t *o) {
   long s; NEED(argc == 3 && (s = slot_live(&a[0])) >= 0 && small(&a[1]) && small(&a[2]) && tok_ulong(&a[1]) <= MAXBITS && tok_ulong(&a[2]) <= MAXBITS);
   mpf_t f; mpf_init2(f, tok_ulong(&a[1])); mpf_urandomb(f, st[s], tok_ulong(&a[2])); out_mpf(o, f); mpf_clear(f); return 0;
 }
+/* two slots the history has put in the same state: draw from both, print `1 value` when equal, `0 v1 v2` otherwise */
+static int op_same(int argc, tok_t *a, out_t *o) {
+  long s, t; NEED(argc == 3 && (s = slot_live(&a[0])) >= 0 && (t = slot_live(&a[1])) >= 0 && s != t && small(&a[2]) && tok_ulong(&a[2]) <= MAXBITS);
+  mpz_t x, y; mpz_init2(x, 1); mpz_init2(y, 1);
+  mpz_urandomb(x, st[s], tok_ulong(&a[2])); mpz_urandomb(y, st[t], tok_ulong(&a[2]));
+  int eq = mpz_wf(x) && mpz_wf(y) && x->_mp_size == y->_mp_size && memcmp(x->_mp_d, y->_mp_d, (size_t)x->_mp_size * sizeof(mp_limb_t)) == 0;
+  out_long(o, eq); out_mpz(o, x); if (!eq) out_mpz(o, y);
+  mpz_clear(x); mpz_clear(y); return 0;
+}
 /* per-bit monobit and byte chi-square over `draws` values of `nbits` bits (exact integers, no floats):
    maxdev = max_j |2*ones_j - draws|,  X = 256*sum c_b^2 - K^2,  K = draws*floor(nbits/8) */
 static int op_freq(int argc, tok_t *a, out_t *o) {
@@ -170,6 +179,6 @@ const opdef_t ops_rand[] = {
   {"@rclear", op_rclear}, {"@urandomb", op_urandomb}, {"@urandomm", op_urandomm}, {"@urandomm_alias", op_urandomm_alias},
   {"@urandomb_ui", op_urandomb_ui}, {"@urandomm_ui", op_urandomm_ui}, {"@rrandomb", op_rrandomb},
   {"@mpn_urandomb", op_mpn_urandomb}, {"@mpn_urandomm", op_mpn_urandomm}, {"@mpn_randomb", op_mpn_randomb},
-  {"@mpn_rrandom", op_mpn_rrandom}, {"@mpf_urandomb", op_mpf_urandomb}, {"@freq", op_freq},
+  {"@mpn_rrandom", op_mpn_rrandom}, {"@mpf_urandomb", op_mpf_urandomb}, {"@freq", op_freq}, {"@same", op_same},
   {"lc_m2exp1_probe", op_lc_m2exp1_probe}, {0, 0}
 };
